@@ -7,7 +7,8 @@ import vlib
 PRE = b"PRE-EXISTING TARGET, NOT WRITTEN BY XZ\n"
 FOREIGN = b"foreign\n"
 IOBUF = 8192
-SIGS = {2: "INT", 15: "TERM", 1: "HUP", 13: "PIPE"}
+SIGS = {2: "INT", 15: "TERM", 1: "HUP", 13: "PIPE"}                 # delivered in every mode
+SIGS_ALL = {2: "INT", 15: "TERM", 1: "HUP", 13: "PIPE", 24: "XCPU", 25: "XFSZ"}   # every signal xz hooks (signals.c)
 RETRY = (4, 11)
 
 
@@ -29,12 +30,14 @@ class Mode:
     """One way of invoking xz on a file pair (or several)."""
     def __init__(self, name, args, files, direction="c", keep=False, force=False, stdout=False, stdin=False, sync=True,
                  pre_target=False, valid=True, init_ok=True, skip=False, gid=False, threads="-T1", lifted=False,
-                 hardlink=False, files_from=False, sigpipe_ignored=False):
+                 hardlink=False, files_from=False, sigpipe_ignored=False, ignored_sig=None):
         self.name, self.args, self.files, self.direction = name, list(args), files, direction
         self.keep, self.force, self.stdout, self.stdin, self.sync = keep, force, stdout, stdin, sync
         self.pre_target, self.valid, self.init_ok, self.skip, self.gid = pre_target, valid, init_ok, skip, gid
         self.threads, self.lifted, self.hardlink, self.files_from = threads, lifted, hardlink, files_from
-        self.sigpipe_ignored = sigpipe_ignored   # xz inherits SIGPIPE = SIG_IGN (no handler is installed then)
+        # xz inherits this signal as SIG_IGN: signals_init() installs no handler for it (and only for it)
+        self.ignored_sig = 13 if sigpipe_ignored else ignored_sig
+        self.sigpipe_ignored = self.ignored_sig == 13
         # files: list of dict(src=name, dst=name or None, data=bytes written as the source, plain=uncompressed bytes)
 
     @property
@@ -60,6 +63,8 @@ class Plan:
         """the signal the model sees: a broken pipe delivers SIGPIPE unless it is ignored"""
         if self.epipe is not None and not mode.sigpipe_ignored:
             return (self.epipe, 13, False)
+        if self.sig and self.sig[1] == mode.ignored_sig:
+            return None     # raise() of an ignored signal does nothing
         return self.sig
 
     def env(self):
@@ -156,7 +161,8 @@ def run_case(xz, so, mode, plan, keep_dir=False, timeout=60):
         fout = open(os.path.join(d, "_out"), "wb")
         sout = fout
     # an ignored SIGPIPE is inherited through exec: let a shell ignore it and exec xz (no preexec_fn: we run in threads)
-    launch = ["/bin/sh", "-c", "trap '' PIPE; exec \"$@\"", "sh"] + argv if mode.sigpipe_ignored else argv
+    launch = (["/bin/sh", "-c", "trap '' %s; exec \"$@\"" % SIGS_ALL[mode.ignored_sig], "sh"] + argv
+              if mode.ignored_sig else argv)
     try:
         p = subprocess.run(launch, cwd=d, env=env, stdin=sin, stdout=sout, stderr=subprocess.PIPE, timeout=timeout)
         rc, err = p.returncode, p.stderr.decode("utf-8", "replace")
@@ -447,5 +453,6 @@ def observed_exit(res, plan, mode=None):
     if plan.crash and ((plan.crash[1] == "X" and rc == 99) or (plan.crash[1] == "K" and rc == -9)):
         return "crash"
     if isinstance(rc, int) and rc < 0:
-        return "sig" if plan.sig and rc == -plan.sig[1] else "killed%d" % -rc
+        sg = plan.sig_eff(mode) if mode is not None else plan.sig
+        return "sig" if sg and rc == -sg[1] else "killed%d" % -rc
     return str(rc)
